@@ -37,7 +37,8 @@ META = dict(
     stubs=["aiohttp.ClientSession -> recording stub (session= parameter)", "hmac.new in binance.helpers and "
            "bitstamp.helpers -> recorder of (key, message); HMAC-SHA256 itself is trusted",
            "the names `time` and `datetime` in the client modules -> proxies whose time()/now()/utcnow() read the scenario "
-           "clock", "the process's local time zone is a solver choice (UTC0 / ART3; thorough adds JST-9)", "the clients' optional limiter (tb=) -> None or an object "
+           "clock", "the request environment (clock reading x local time zone x limiter) is one solver choice from 5 combinations "
+           "(quick) / the full product of 3 clocks x {UTC0, JST-9, ART3} x {no limiter, 5 s, 0.25 s} (thorough)", "the clients' optional limiter (tb=) -> None or an object "
            "whose consume() returns 5 s (thorough: also 0.25 s); asyncio.sleep in the client modules advances the scenario clock", "uuid.uuid4 deterministic and distinct",
            "wire = yarl.URL(url).update_query(params).raw_query_string and aiohttp.FormData(data)() body"],
     assumptions=["aiohttp serialises `params` through yarl and `data` through FormData exactly as the installed versions "
@@ -51,6 +52,10 @@ META = dict(
 PRINTABLE = [chr(i) for i in range(32, 127)]
 SPECIALS = list(".:/_-@+ %&=?#")
 CLOCKS = [1700000000.0004, 1700000000.4995, 1700000000.9996]
+# (clock reading, local time zone, limiter wait): the environment of a request, one solver choice (the three dimensions
+# are independent of each other and of the argument under test; the full product is the thorough tier's)
+ENVS = [(0, "UTC0", None), (1, "UTC0", None), (2, "ART3", None), (0, "UTC0", 5.0), (1, "ART3", 5.0)]
+ENVS_THOROUGH = [(c, z, w) for c in range(3) for z in ("UTC0", "JST-9", "ART3") for w in (None, 5.0, 0.25)]
 EXTRA_DECIMALS = ["12.50", "1E-8", "3.1E+4"]      # extra keyword arguments may be decimals of any exponent
 
 
@@ -172,11 +177,14 @@ def _datetime_proxy(clk):
     return ns
 
 
-def _clock_env(ctx, modules, clk, tier="quick"):
+def _clock_env(ctx, modules, tier="quick"):
     """Every clock source visible in the client modules reads the scenario clock; the process's local time zone is a
-    solver choice (a timestamp must not depend on it)."""
+    solver choice (a timestamp must not depend on it).  Returns (clock cell, limiter wait)."""
     from .c17_wire import _local_zone
-    _local_zone(ctx, None if tier == "thorough" else ["UTC0", "ART3"])
+    envs = ENVS_THOROUGH if tier == "thorough" else ENVS
+    ci, zone, wait = envs[ctx.choice("environment", len(envs))]
+    clk = [CLOCKS[ci]]
+    _local_zone(ctx, [zone])
     found = False
     for m in modules:
         if isinstance(getattr(m, "time", None), types.ModuleType):
@@ -188,13 +196,12 @@ def _clock_env(ctx, modules, clk, tier="quick"):
     if not found:
         from symx.core import HarnessError
         raise HarnessError("no clock source (time / datetime module) found in %s" % [m.__name__ for m in modules])
+    return clk, wait
 
 
-def _throttle(ctx, module, clk, tier="quick"):
+def _throttle(ctx, module, clk, wait):
     """The clients' optional request limiter (`tb=`): None, or a limiter that makes every request wait 5 s / 0.25 s.
     asyncio.sleep inside the client module advances the scenario clock instead of suspending."""
-    waits = [None, 5.0, 0.25] if tier == "thorough" else [None, 5.0]
-    wait = waits[ctx.choice("limiter_wait", len(waits))]
 
     async def sleep(seconds):
         clk[0] = clk[0] + seconds
@@ -207,10 +214,9 @@ def _throttle(ctx, module, clk, tier="quick"):
 def binance_endpoint(ctx, account="spot_account", method="query_order", tier="quick"):
     rec = _HmacRecorder()
     ctx.patch(bn_helpers, "hmac", rec, both_modes=True)
-    clk = [CLOCKS[ctx.choice("clock", len(CLOCKS))]]
-    _clock_env(ctx, [bn_base, bn_helpers], clk, tier)
+    clk, wait = _clock_env(ctx, [bn_base, bn_helpers], tier)
     sess = StubSession()
-    api = BnAPIClient(api_key="the-key", api_secret="the-secret", session=sess, tb=_throttle(ctx, bn_base, clk, tier))
+    api = BnAPIClient(api_key="the-key", api_secret="the-secret", session=sess, tb=_throttle(ctx, bn_base, clk, wait))
     acc = getattr(api, account)
     fn = getattr(acc, method)
     gen = _strings(ctx, tier)
@@ -250,11 +256,10 @@ def binance_endpoint(ctx, account="spot_account", method="query_order", tier="qu
 def bitstamp_endpoint(ctx, method="get_order_status", tier="quick"):
     rec = _HmacRecorder()
     ctx.patch(bt_helpers, "hmac", rec, both_modes=True)
-    clk = [CLOCKS[ctx.choice("clock", len(CLOCKS))]]
-    _clock_env(ctx, [bt_helpers, bt_client], clk, tier)
+    clk, wait = _clock_env(ctx, [bt_helpers, bt_client], tier)
     sess = StubSession()
     api = bt_client.APIClient(api_key="the-key", api_secret="the-secret", session=sess,
-                              tb=_throttle(ctx, bt_client, clk, tier))
+                              tb=_throttle(ctx, bt_client, clk, wait))
     fn = getattr(api, method)
     gen = _strings(ctx, tier)
     dec = lambda name: ctx.dec("dec_" + name, 4, lo=1, hi=10 ** 9)     # noqa: E731
